@@ -135,7 +135,7 @@ class InducingPointKernel(Kernel):
             base_kernel=copy.deepcopy(self.base_kernel, memo),
             inducing_points=copy.deepcopy(self.inducing_points, memo),
             likelihood=copy.deepcopy(self.likelihood, memo),
-            active_dims=self.active_dims,
+            active_dims=copy.deepcopy(self.active_dims, memo),
         )
         # a freshly constructed module is in training mode and its inducing points are trainable:
         # keep the mode of the kernel being copied and whether its inducing points are held fixed
